@@ -213,12 +213,14 @@ func CreateLossItvls(pattern string) (LossItvls, error) {
 			dur = dur*10 + int(digit)
 		}
 	}
-	if state != lossUnknown {
-		if dur == 0 {
-			return LossItvls{}, fmt.Errorf("invalid loss pattern %q", pattern)
-		}
-		li.Itvls = append(li.Itvls, LossItvl{durS: dur, state: state})
+	if state == lossUnknown {
+		// No state letter at all (e.g. "5" or an empty part): no interval, so no cycle to map time onto.
+		return LossItvls{}, fmt.Errorf("invalid loss pattern %q", pattern)
 	}
+	if dur == 0 {
+		return LossItvls{}, fmt.Errorf("invalid loss pattern %q", pattern)
+	}
+	li.Itvls = append(li.Itvls, LossItvl{durS: dur, state: state})
 	return li, nil
 }
 
